@@ -148,7 +148,8 @@ def run(chk):
         for term in names:
             variants = [dict()]
             if term == 'bc':
-                variants = [dict(bc='dirichlet'), dict(bc='von neumann')]
+                variants = [dict(bc='dirichlet'), dict(bc='von neumann'), dict(bc='dirichlet', m_u=2, bc_dim=slice(1, 2)),
+                            dict(bc='dirichlet', m_u=3, bc_dim=slice(0, 2))]
                 if thorough:
                     variants += [dict(bc='dirichlet', d=1), dict(bc='von neumann', d=1), dict(bc='von neumann', m_u=2, bc_dim=slice(1, 2))]
             for var in variants:
